@@ -25,6 +25,19 @@ CHECKS = {
  "C13": ("fault_enumeration", "HIST", "exhaustive fault enumeration: every history <= depth x every insertion position x every kind of failing statement x every live tensor as target, differential against the fault-free run on the real library",
          "All single-fault insertions into all histories up to the bound; the run with the failing statement must be observationally identical (per statement and in the final gradients) to the run without it.",
          "differential oracle (no expected values); creator kind / live consumer count read from private attributes", "3/C13"),
+
+ "C14": ("model_checking", "PROG", "bounded-exhaustive enumeration of all SSA programs <= n statements x leaf dtypes x every seed kind on the real library; differential between backward(g) and (L*g).sum().backward() on fresh replays plus a gradient shape/dtype invariant on every tensor",
+         "Every program up to the bound is back-propagated under every seed form (scalars, arrays, tensors, every broadcastable and several non-broadcastable shapes) in f16/f32/f64/mixed; the two documented identities are checked differentially and the grad shape/dtype invariant on every tensor, including one-op programs of all nnet layers.",
+         "programs <= 2-3 statements over the core alphabet; tolerance 64 eps between the two seedings", "3/C14"),
+ "C15": ("model_checking", "HIST", "exhaustive enumeration of all block-structured scope programs <= n nodes (with/decorator/try/raise/turn_on/turn_off/probe x 3 managers) executed with real syntax; a stack interpreter (reference model) predicts the switches after every enter/exit/raise",
+         "All nestings up to the bound, including re-entrant use of the same manager and exceptions unwinding through any number of levels, are executed; the real switches are compared with the stack model at every step and a probe checks the no_autodiff clause inside scopes.",
+         "MEM_GUARD after a turn_* call made inside a scope is not compared until an enclosing mem-guard scope exits", "3/C15"),
+ "C17": ("exploration", "CONF", "exhaustive product of input kind x dtype x constant x copy x ndmin x entry point, copy/astype lattice and creation-routine argument lattice, each cell executed on the real library against numpy.asarray/numpy.array/NumPy namesakes",
+         "Every cell of the construction/conversion lattices is executed; aliasing, identity, dtype, constant flag, rejection of non-real dtypes and parity of the creation routines with NumPy are compared cell by cell.",
+         "expectations derived from NumPy itself; constant inference for tensor inputs with constant=None not compared", "3/C17"),
+ "C18": ("exploration", "CONF", "exhaustive product shape x dtype x constant x gradient kind x tensor kind x file kind of save/load round trips on the real library",
+         "Every cell of the lattice (incl. 0-d, empty, int/bool/float16, view gradients, BytesIO and file objects) is round-tripped and compared; the source tensor's observable state must be unchanged.",
+         "files under /dev/shm or the default temp dir", "3/C18"),
 }
 NA = {}
 def main():
